@@ -33,6 +33,7 @@ import (
 	"github.com/google/martian/v3/nosigpipe"
 	"github.com/google/martian/v3/proxyutil"
 	"github.com/google/martian/v3/trafficshape"
+	"github.com/google/martian/v3/verifhook"
 )
 
 var errClose = errors.New("closing connection")
@@ -230,6 +231,7 @@ func (p *Proxy) Serve(l net.Listener) error {
 }
 
 func (p *Proxy) handleLoop(conn net.Conn) {
+	verifhook.Point("proxy.handleLoop.beforeRegister")
 	p.connsMu.Lock()
 	p.conns.Add(1)
 	p.connsMu.Unlock()
